@@ -194,7 +194,9 @@ def tlc(ctx, module, cfg, env=None, workers=4, timeout=1200, xmx="4g", dfs=False
         cfgpath = cfg if os.path.isabs(cfg) else os.path.join(SPEC, cfg)
     metadir = ctx.path("md-" + name)
     e = dict(os.environ)
-    jopts = "-Xss1g -XX:+UseParallelGC"
+    jtmp = ctx.path("jtmp-" + name)
+    os.makedirs(jtmp, exist_ok=True)
+    jopts = "-Xss1g -XX:+UseParallelGC -Djava.io.tmpdir=" + jtmp
     if dfs:
         jopts += " -Dtlc2.tool.queue.IStateQueue=StateDeque"
     e["JAVA_TOOL_OPTIONS"] = jopts
@@ -214,6 +216,7 @@ def tlc(ctx, module, cfg, env=None, workers=4, timeout=1200, xmx="4g", dfs=False
     with open(ctx.path(name + ".tlc.log"), "w") as f:
         f.write(out)
     shutil.rmtree(metadir, ignore_errors=True)
+    shutil.rmtree(jtmp, ignore_errors=True)
     if p.returncode == 124:
         raise ToolError("TLC timed out after %ss on %s" % (timeout, name))
     res = {"out": out, "rc": p.returncode, "wall": time.time() - t, "name": name}
